@@ -51,6 +51,49 @@ async def agen(x):
     yield x
 lam = lambda q: q * 2
 '''
+# functions that are *executed* before being disassembled: from 3.11 on the interpreter rewrites the code of a running
+# function in place (specialised opcodes, live inline caches in _co_code_adaptive); dis shows the de-optimised co_code
+WARM_SRC = '''
+G = 3
+class P(object):
+    def __init__(self):
+        self.x = 1
+        self.items = [1, 2, 3]
+    def inc(self, k):
+        self.x += k
+        return self.x
+def w_loop(n):
+    t = 0
+    for i in range(n):
+        t += i * G
+        if t > 100:
+            t -= 7
+    return t
+def w_attr(p, n):
+    s = 0
+    for _ in range(n):
+        s += p.x + len(p.items) + p.inc(1)
+        p.items[0] = s
+    return s, p.items[0]
+def w_calls(n):
+    out = []
+    for i in range(n):
+        out.append(str(i) + "x")
+        d = {"k": i}
+        out.append(d["k"] == i and isinstance(d, dict))
+    a, b = out[0], out[1]
+    return a, b
+def w_compare(xs):
+    c = 0
+    for v in xs:
+        if v is None:
+            continue
+        if v > 1 and v != 3 or v in (5, 6):
+            c += 1
+        while c > 3:
+            c -= 2
+    return c
+'''
 FIRST_LINES = [None, 1, 100, "own", 0]
 
 
@@ -77,6 +120,8 @@ def cases(plan, tier, shard, nshards, host):
     if shard == 0:
         yield {"kind": "zoo"}
         yield {"kind": "tables"}
+    if shard == 1 % nshards:
+        yield {"kind": "warm"}
     for pid, src in G.enumerate_programs(sys.version_info[:2], 1):
         n += 1
         if n % nshards == shard:
@@ -303,6 +348,22 @@ def run_case(case, ctx):
                 a, b = sorted(x for x in a if x < 256), sorted(x for x in b if x < 256)
             if a != b:
                 ctx.violation("%s:table:%s" % (htag, name), "xdis.std.%s != opcode.%s (%s vs %s)" % (name, name, str(a)[:80], str(b)[:80]))
+        return
+    if case["kind"] == "warm":
+        ns = {"__name__": "warm"}
+        exec(compile(WARM_SRC, "<warm>", "exec"), ns)
+        p_ = ns["P"]()
+        for rounds in (0, 1, 9, 70):
+            for _ in range(rounds):
+                ns["w_loop"](40)
+                ns["w_attr"](p_, 12)
+                ns["w_calls"](12)
+                ns["w_compare"]([None, 1, 2, 3, 5, 9, 9, 9])
+            for nm in ("w_loop", "w_attr", "w_calls", "w_compare"):
+                check_object(ctx, htag, "warm-%d" % rounds, ns[nm], [None, "own"])
+                check_code(ctx, htag, ns[nm].__code__, "warm-%d/%s" % (rounds, nm))
+            check_object(ctx, htag, "warm-%d" % rounds, p_.inc, [None])
+            ctx.count("warm_functions", 5)
         return
     if case["kind"] == "zoo":
         ns = {"__name__": "zoo"}
